@@ -5,6 +5,8 @@ mod common;
 mod bvgen;
 mod c01;
 mod c17;
+mod c18;
+mod c20;
 
 use common::*;
 
@@ -27,6 +29,8 @@ fn main() {
     match prop {
         "C01" => c01::run(&mut rng, &mut out, thorough),
         "C17" => c17::run(&mut rng, &mut out, thorough, variant),
+        "C18" => c18::run(&mut rng, &mut out, thorough, variant),
+        "C20" => c20::run(&mut rng, &mut out, thorough, variant),
         _ => {
             eprintln!("unknown property {}", prop);
             std::process::exit(2);
